@@ -1056,3 +1056,1028 @@ Proof.
     assert (existsb (same_profile y) a = true); [|congruence].
     apply existsb_exists. exists z. split; [exact Hza|]. apply same_profile_eq. congruence.
 Qed.
+
+Inductive ds_shape (ds : list ent) : Prop :=
+| dss_nil : ds = [] -> ds_shape ds
+| dss_single : forall n, ds = [n] -> overloadable n = false -> ds_shape ds
+| dss_over : ds <> [] -> forallb overloadable ds = true -> NoDup (map profile ds) -> ds_shape ds.
+
+Lemma homographs_shape : forall ds, homographs_ok ds = true -> ds_shape ds.
+Proof.
+  intros [|e [|e' r]] H.
+  - apply dss_nil. reflexivity.
+  - destruct (overloadable e) eqn:E.
+    + apply dss_over; [discriminate|cbn [forallb]; rewrite E; reflexivity|]. cbn [map]. constructor; [intros []|constructor].
+    + eapply dss_single; [reflexivity|exact E].
+  - cbn [homographs_ok] in H. apply andb_true_iff in H. destruct H as [Ho Hd].
+    apply dss_over; [discriminate|exact Ho|apply distinct_profiles_NoDup; exact Hd].
+Qed.
+
+Lemma classify_over : forall ds, ds <> [] -> forallb overloadable ds = true -> classify ds = Some (NOver ds).
+Proof.
+  intros [|e [|e' r]] Hne Ho; [contradiction| |reflexivity].
+  cbn [classify]. unfold named_new, is_overloaded. cbn [forallb] in Ho. rewrite andb_true_r in Ho.
+  unfold overloadable in Ho. rewrite Ho. reflexivity.
+Qed.
+
+Lemma filter_nonover_over : forall ds, forallb overloadable ds = true -> filter (fun e => negb (overloadable e)) ds = [].
+Proof.
+  induction ds as [|e r IH]; intros H; [reflexivity|]. cbn [forallb] in H. apply andb_true_iff in H.
+  destruct H as [He Hr]. cbn [filter]. rewrite He. cbn [negb]. apply IH. exact Hr.
+Qed.
+
+Inductive enc_inv : option nament -> Prop :=
+| ei_none : enc_inv None
+| ei_single : forall e, overloadable e = false -> enc_inv (Some (NSingle e))
+| ei_over : forall l, l <> [] -> forallb overloadable l = true -> NoDup (map profile l) -> enc_inv (Some (NOver l)).
+
+Section Point2.
+  Variable pkgs : N -> list ent.
+  Definition regions_ok (ch : list (list item)) (d : des) : Prop :=
+    Forall (fun pre => homographs_ok (named d (decls_of pre)) = true) ch.
+
+  Lemma oplus_nonempty : forall a b, a <> [] -> oplus a b <> [].
+  Proof. intros [|x a] b H; [contradiction|discriminate]. Qed.
+
+  Lemma lookup_enclosing_inv : forall ch d, regions_ok ch d -> enc_inv (lookup_enclosing (point_scope pkgs ch) d).
+  Proof.
+    induction ch as [|pre rest IH]; intros d H; [constructor|]. inversion H as [|? ? Hp Hr]; subst.
+    specialize (IH d Hr). cbn [point_scope map lookup_enclosing]. rewrite (point_immediate pkgs pre [] d Hp).
+    destruct (homographs_shape _ Hp) as [E|n E Hn|Hne Ho Hnd].
+    - rewrite E. cbn [classify]. exact IH.
+    - rewrite E. cbn [classify]. unfold named_new, is_overloaded. unfold overloadable in Hn. rewrite Hn.
+      constructor. exact Hn.
+    - rewrite (classify_over _ Hne Ho). fold (point_scope pkgs rest).
+      destruct IH as [|e He|l Hl Hlo Hln].
+      + constructor; assumption.
+      + constructor; assumption.
+      + rewrite (with_visible_oplus l _ Ho Hlo Hln). constructor.
+        * apply oplus_nonempty. exact Hne.
+        * apply oplus_overloadable; assumption.
+        * apply oplus_NoDup; assumption.
+  Qed.
+
+  Lemma direct_enclosing : forall ch d, regions_ok ch d -> forall acc,
+    direct ch d acc =
+    match lookup_enclosing (point_scope pkgs ch) d with
+    | Some (NSingle n) => match acc with [] => inl n | _ :: _ => inr acc end
+    | Some (NOver enc) => inr (oplus acc enc)
+    | None => inr acc
+    end.
+  Proof.
+    induction ch as [|pre rest IH]; intros d H acc; [reflexivity|]. inversion H as [|? ? Hp Hr]; subst.
+    pose proof (lookup_enclosing_inv rest d Hr) as Hinv. specialize (IH d Hr).
+    cbn [point_scope map lookup_enclosing direct]. rewrite (point_immediate pkgs pre [] d Hp).
+    fold (point_scope pkgs rest).
+    destruct (homographs_shape _ Hp) as [E|n E Hn|Hne Ho Hnd].
+    - rewrite E. cbn [classify filter]. rewrite app_nil_r. apply IH.
+    - rewrite E. cbn [classify filter]. rewrite Hn. cbn [negb]. unfold named_new, is_overloaded.
+      unfold overloadable in Hn. rewrite Hn. reflexivity.
+    - rewrite (filter_nonover_over _ Ho), (classify_over _ Hne Ho).
+      change (acc ++ filter (not_hidden_by acc) (named d (decls_of pre))) with (oplus acc (named d (decls_of pre))).
+      rewrite IH. destruct Hinv as [|e He|l Hl Hlo Hln].
+      + reflexivity.
+      + destruct (oplus acc (named d (decls_of pre))) eqn:E; [|reflexivity].
+        exfalso. destruct acc as [|x acc].
+        * rewrite oplus_nil_l in E. contradiction.
+        * discriminate.
+      + rewrite (with_visible_oplus l _ Ho Hlo Hln). rewrite oplus_assoc. reflexivity.
+  Qed.
+End Point2.
+
+(* ---- potentially visible declarations ------------------------------------------------------- *)
+Definition ids_consistent (l : list ent) : Prop := forall x y, In x l -> In y l -> eid x = eid y -> x = y.
+
+Lemma ids_consistent_incl : forall l l', (forall x, In x l -> In x l') -> ids_consistent l' -> ids_consistent l.
+Proof. intros l l' H Hc x y Hx Hy. apply Hc; auto. Qed.
+
+Lemma visible_insert_spec : forall acc e,
+  visible_insert acc e = if existsb (fun x => eid x =? eid e) acc then acc else acc ++ [e].
+Proof. reflexivity. Qed.
+
+Lemma fold_insert_in : forall l acc e, ids_consistent (acc ++ l) ->
+  (In e (fold_left visible_insert l acc) <-> In e acc \/ In e l).
+Proof.
+  induction l as [|x r IH]; intros acc e Hc; cbn [fold_left].
+  - cbn [In]. tauto.
+  - rewrite visible_insert_spec. destruct (existsb (fun y => eid y =? eid x) acc) eqn:E.
+    + rewrite IH.
+      * cbn [In]. split; [tauto|]. intros [H|[H|H]]; auto. subst e. left.
+        apply existsb_exists in E. destruct E as [y [Hy He]]. apply N.eqb_eq in He.
+        assert (Hyx : y = x) by (apply Hc; [apply in_or_app; left; exact Hy|apply in_or_app; right; left; reflexivity|exact He]).
+        subst y. exact Hy.
+      * eapply ids_consistent_incl; [|exact Hc]. intros z Hz. apply in_app_or in Hz. apply in_or_app.
+        destruct Hz; [left|right; right]; assumption.
+    + rewrite IH.
+      * rewrite in_app_iff. cbn [In]. tauto.
+      * eapply ids_consistent_incl; [|exact Hc]. intros z Hz. rewrite <- app_assoc in Hz. exact Hz.
+Qed.
+
+Lemma fold_insert_nodup : forall l acc, NoDup (map eid acc) -> NoDup (map eid (fold_left visible_insert l acc)).
+Proof.
+  induction l as [|x r IH]; intros acc H; [exact H|]. cbn [fold_left]. apply IH.
+  rewrite visible_insert_spec. destruct (existsb (fun y => eid y =? eid x) acc) eqn:E; [exact H|].
+  rewrite map_app. cbn [map]. apply NoDup_app_intro; [exact H|constructor; [intros []|constructor]|].
+  intros i Hi [Hx|[]]. subst i. apply in_map_iff in Hi. destruct Hi as [y [Hy Hin]].
+  assert (existsb (fun y => eid y =? eid x) acc = true); [|congruence].
+  apply existsb_exists. exists y. split; [exact Hin|]. apply N.eqb_eq. exact Hy.
+Qed.
+
+Lemma dedupe_in : forall l seen e, In e (dedupe seen l) -> In e l /\ ~ In (eid e) seen.
+Proof.
+  induction l as [|x r IH]; intros seen e H; cbn [dedupe] in H; [destruct H|].
+  destruct (existsb (N.eqb (eid x)) seen) eqn:E.
+  - apply IH in H. cbn [In]. tauto.
+  - destruct H as [H|H].
+    + subst e. split; [left; reflexivity|]. intros Hin.
+      assert (existsb (N.eqb (eid x)) seen = true); [|congruence]. apply existsb_exists. exists (eid x).
+      split; [exact Hin|apply N.eqb_refl].
+    + apply IH in H. cbn [In] in H. split; [right; tauto|tauto].
+Qed.
+
+Lemma dedupe_complete : forall l seen e, ids_consistent l -> In e l -> ~ In (eid e) seen -> In e (dedupe seen l).
+Proof.
+  induction l as [|x r IH]; intros seen e Hc Hin Hs; [destruct Hin|]. cbn [dedupe].
+  assert (Hcr : ids_consistent r) by (eapply ids_consistent_incl; [|exact Hc]; intros z Hz; right; exact Hz).
+  destruct (existsb (N.eqb (eid x)) seen) eqn:E.
+  - destruct Hin as [Hx|Hin]; [|apply IH; assumption]. subst e. exfalso. apply Hs.
+    apply existsb_exists in E. destruct E as [i [Hi He]]. apply N.eqb_eq in He. subst i. exact Hi.
+  - destruct Hin as [Hx|Hin]; [left; exact Hx|].
+    destruct (N.eq_dec (eid e) (eid x)) as [He|He].
+    + left. symmetry. apply Hc; [right; exact Hin|left; reflexivity|exact He].
+    + right. apply IH; [exact Hcr|exact Hin|]. intros [H|H]; [congruence|contradiction].
+Qed.
+
+Lemma dedupe_nodup : forall l seen, NoDup (map eid (dedupe seen l)).
+Proof.
+  induction l as [|x r IH]; intros seen; cbn [dedupe]; [constructor|].
+  destruct (existsb (N.eqb (eid x)) seen); [apply IH|]. cbn [map]. constructor; [|apply IH].
+  intros Hin. apply in_map_iff in Hin. destruct Hin as [y [Hy Hin]]. apply dedupe_in in Hin.
+  destruct Hin as [_ Hn]. apply Hn. left. symmetry. exact Hy.
+Qed.
+
+(* hash-map helpers of Visibility *)
+Lemma vmap_get_put : forall m d' x d,
+  vmap_get (vmap_put d' x m) d = if d' =? d then idmap_put x (vmap_get m d) else vmap_get m d.
+Proof.
+  induction m as [|[k es] r IH]; intros d' x d; cbn [vmap_put vmap_get].
+  - destruct (d' =? d); reflexivity.
+  - destruct (N.eqb_spec k d') as [Hk|Hk]; cbn [vmap_get].
+    + subst k. destruct (N.eqb_spec d' d); reflexivity.
+    + rewrite IH. destruct (N.eqb_spec k d) as [Hkd|Hkd]; [|reflexivity].
+      subst k. destruct (N.eqb_spec d' d); [congruence|reflexivity].
+Qed.
+
+Lemma idmap_put_in : forall x es e, In e (idmap_put x es) -> e = x \/ In e es.
+Proof.
+  induction es as [|y r IH]; intros e H; cbn [idmap_put] in H.
+  - destruct H as [H|[]]. left. symmetry. exact H.
+  - destruct (eid y =? eid x).
+    + destruct H as [H|H]; [left; symmetry; exact H|right; right; exact H].
+    + destruct H as [H|H]; [right; left; exact H|]. apply IH in H. cbn [In]. tauto.
+Qed.
+Lemma idmap_put_self : forall x es, In x (idmap_put x es).
+Proof.
+  induction es as [|y r IH]; cbn [idmap_put]; [left; reflexivity|].
+  destruct (eid y =? eid x); [left; reflexivity|right; exact IH].
+Qed.
+Lemma idmap_put_keep : forall x es e, In e es -> eid e <> eid x -> In e (idmap_put x es).
+Proof.
+  induction es as [|y r IH]; intros e H Hne; [destruct H|]. cbn [idmap_put].
+  destruct (N.eqb_spec (eid y) (eid x)) as [Hy|Hy].
+  - destruct H as [H|H]; [subst y; contradiction|right; exact H].
+  - destruct H as [H|H]; [left; exact H|right; apply IH; assumption].
+Qed.
+
+Definition put_all (l : list ent) (m : list (des * list ent)) : list (des * list ent) :=
+  fold_left (fun m x => vmap_put (edes x) x m) l m.
+
+Lemma put_all_in : forall l m d e, In e (vmap_get (put_all l m) d) -> (In e l /\ edes e = d) \/ In e (vmap_get m d).
+Proof.
+  unfold put_all. induction l as [|x r IH]; intros m d e H; cbn [fold_left] in H; [right; exact H|].
+  apply IH in H. destruct H as [[H1 H2]|H]; [left; split; [right; exact H1|exact H2]|].
+  rewrite vmap_get_put in H. destruct (N.eqb_spec (edes x) d) as [Hd|Hd]; [|right; exact H].
+  apply idmap_put_in in H. destruct H as [H|H]; [left; subst e; split; [left; reflexivity|exact Hd]|right; exact H].
+Qed.
+
+Lemma put_all_complete : forall l m d e,
+  ids_consistent (filter (fun x => edes x =? d) l ++ vmap_get m d) ->
+  (In e l /\ edes e = d) \/ In e (vmap_get m d) -> In e (vmap_get (put_all l m) d).
+Proof.
+  unfold put_all. induction l as [|x r IH]; intros m d e Hc H; cbn [fold_left].
+  - destruct H as [[[] _]|H]. exact H.
+  - apply IH.
+    + rewrite vmap_get_put. cbn [filter] in Hc. destruct (N.eqb_spec (edes x) d) as [Hd|Hd].
+      * eapply ids_consistent_incl; [|exact Hc]. intros z Hz. apply in_app_or in Hz. cbn [app In].
+        destruct Hz as [Hz|Hz]; [right; apply in_or_app; left; exact Hz|].
+        apply idmap_put_in in Hz. destruct Hz as [Hz|Hz]; [left; symmetry; exact Hz|right; apply in_or_app; right; exact Hz].
+      * exact Hc.
+    + rewrite vmap_get_put. cbn [filter] in Hc. destruct (N.eqb_spec (edes x) d) as [Hd|Hd].
+      * destruct H as [[[H|H] H2]|H].
+        -- right. subst e. apply idmap_put_self.
+        -- left. tauto.
+        -- right. destruct (N.eq_dec (eid e) (eid x)) as [He|He].
+           ++ assert (e = x).
+              { apply Hc; [right; apply in_or_app; right; exact H|left; reflexivity|exact He]. }
+              subst e. apply idmap_put_self.
+           ++ apply idmap_put_keep; assumption.
+      * destruct H as [[[H|H] H2]|H]; [subst e; contradiction|left; tauto|right; exact H].
+Qed.
+
+(* what Visibility::lookup_into offers to Visible::insert, in order *)
+Definition region_cands (r : region) (d : des) : list ent :=
+  flat_map (fun en => named_ents (ents_get en d)) (v_all (r_vis r)) ++ vmap_get (v_named (r_vis r)) d.
+
+Lemma fold_left_flat_map : forall {A B C} (f : C -> B -> C) (g : A -> list B) l acc,
+  fold_left (fun a x => fold_left f (g x) a) l acc = fold_left f (flat_map g l) acc.
+Proof.
+  intros A B C f g l. induction l as [|x r IH]; intros acc; [reflexivity|].
+  cbn [fold_left flat_map]. rewrite fold_left_app. apply IH.
+Qed.
+
+Lemma vis_lookup_into_cands : forall r d acc,
+  vis_lookup_into (r_vis r) d acc = fold_left visible_insert (region_cands r d) acc.
+Proof.
+  intros r d acc. unfold vis_lookup_into, region_cands. rewrite fold_left_app. f_equal.
+  rewrite <- fold_left_flat_map. revert acc. induction (v_all (r_vis r)) as [|en l IH]; intros acc; [reflexivity|].
+  cbn [fold_left]. rewrite IH. f_equal. destruct (ents_get en d) as [[e|os]|]; reflexivity.
+Qed.
+
+Lemma lookup_visibility_cands : forall s d acc,
+  lookup_visibility_into s d acc = fold_left visible_insert (flat_map (fun f => region_cands (f_region f) d) s) acc.
+Proof.
+  induction s as [|f r IH]; intros d acc; [reflexivity|]. cbn [lookup_visibility_into flat_map].
+  rewrite fold_left_app, vis_lookup_into_cands. apply IH.
+Qed.
+
+Section Point3.
+  Variable pkgs : N -> list ent.
+
+  Definition vis_apply (v : visibility) (it : item) : visibility :=
+    match it with
+    | IUseAll p => vis_make_all v (pkg_region pkgs p)
+    | IUseName p d => fold_left vis_make (named_ents (ents_get (pkg_region pkgs p) d)) v
+    | _ => v
+    end.
+  Lemma point_region_vis : forall pre r0,
+    r_vis (fold_left (item_apply pkgs) pre r0) = fold_left vis_apply pre (r_vis r0).
+  Proof.
+    induction pre as [|it pre IH]; intros r0; [reflexivity|]. cbn [fold_left]. rewrite IH.
+    destruct it; reflexivity.
+  Qed.
+
+  Definition use_alls (pre : list item) : list N :=
+    flat_map (fun it => match it with IUseAll p => [p] | _ => [] end) pre.
+  Definition name_inserts (pre : list item) : list ent :=
+    flat_map (fun it => match it with
+                        | IUseName p n => flat_map (fun x => implicits x ++ [x]) (named_ents (ents_get (pkg_region pkgs p) n))
+                        | _ => []
+                        end) pre.
+
+  Lemma vis_make_named : forall l v,
+    v_named (fold_left vis_make l v) = put_all (flat_map (fun x => implicits x ++ [x]) l) (v_named v)
+    /\ v_all (fold_left vis_make l v) = v_all v.
+  Proof.
+    induction l as [|x r IH]; intros v; [split; reflexivity|]. cbn [fold_left flat_map].
+    destruct (IH (vis_make v x)) as [H1 H2]. rewrite H1, H2. split; [|reflexivity].
+    unfold put_all. rewrite !fold_left_app. reflexivity.
+  Qed.
+
+  Lemma point_vis_all : forall pre v, v_all (fold_left vis_apply pre v) = v_all v ++ map (pkg_region pkgs) (use_alls pre).
+  Proof.
+    induction pre as [|it pre IH]; intros v; [cbn; rewrite app_nil_r; reflexivity|]. cbn [fold_left]. rewrite IH.
+    unfold use_alls. cbn [flat_map]. destruct it; cbn [vis_apply app map]; try reflexivity.
+    - unfold vis_make_all. cbn [v_all]. rewrite <- app_assoc. reflexivity.
+    - destruct (vis_make_named (named_ents (ents_get (pkg_region pkgs p) d)) v) as [_ H]. rewrite H. reflexivity.
+  Qed.
+
+  Lemma point_vis_named : forall pre v, v_named (fold_left vis_apply pre v) = put_all (name_inserts pre) (v_named v).
+  Proof.
+    induction pre as [|it pre IH]; intros v; [reflexivity|]. cbn [fold_left]. rewrite IH.
+    unfold name_inserts. cbn [flat_map]. unfold put_all. rewrite fold_left_app. f_equal.
+    destruct it; cbn [vis_apply]; try reflexivity.
+    destruct (vis_make_named (named_ents (ents_get (pkg_region pkgs p) d)) v) as [H _]. exact H.
+  Qed.
+
+  (* side conditions on the packages used in a region prefix, for designator d *)
+  Definition uses_ok (d : des) (pre : list item) : Prop :=
+    forall it, In it pre ->
+      match it with
+      | IUseAll p => homographs_ok (named d (pkgs p)) = true
+      | IUseName p n => homographs_ok (named n (pkgs p)) = true
+      | _ => True
+      end.
+
+  Lemma name_inserts_spec : forall pre d e, uses_ok d pre ->
+    (In e (name_inserts pre) /\ edes e = d <->
+     exists p n, In (IUseName p n) pre /\ In e (item_uses pkgs d (IUseName p n))).
+  Proof.
+    intros pre d e Hu. unfold name_inserts. rewrite in_flat_map. split.
+    - intros [[it [Hit Hin]] Hd]. destruct it; try (destruct Hin). exists p, d0. split; [exact Hit|].
+      pose proof (Hu _ Hit) as Hok. cbn in Hok. rewrite (pkg_region_get pkgs p d0 Hok) in Hin.
+      cbn [item_uses]. unfold named at 1. apply filter_In. split; [|apply N.eqb_eq; exact Hd].
+      apply in_flat_map in Hin. destruct Hin as [x [Hx Hin]]. apply in_app_or in Hin. apply in_or_app.
+      destruct Hin as [Hin|[Hin|[]]]; [right; apply in_flat_map; exists x; tauto|left; subst; exact Hx].
+    - intros [p [n [Hit Hin]]]. cbn [item_uses] in Hin. unfold named at 1 in Hin. apply filter_In in Hin.
+      destruct Hin as [Hin Hd]. apply N.eqb_eq in Hd. split; [|exact Hd]. exists (IUseName p n). split; [exact Hit|].
+      pose proof (Hu _ Hit) as Hok. cbn in Hok. rewrite (pkg_region_get pkgs p n Hok).
+      apply in_flat_map. apply in_app_or in Hin. destruct Hin as [Hin|Hin].
+      + exists e. split; [exact Hin|apply in_or_app; right; left; reflexivity].
+      + apply in_flat_map in Hin. destruct Hin as [x [Hx Hin]]. exists x. split; [exact Hx|apply in_or_app; left; exact Hin].
+  Qed.
+
+  Lemma use_alls_in : forall pre p, In p (use_alls pre) <-> In (IUseAll p) pre.
+  Proof.
+    intros pre p. unfold use_alls. rewrite in_flat_map. split.
+    - intros [it [Hit Hin]]. destruct it; cbn [In] in Hin; try contradiction. destruct Hin as [->|[]]. exact Hit.
+    - intros H. exists (IUseAll p). split; [exact H|left; reflexivity].
+  Qed.
+
+  Lemma cands_to_spec : forall pre d e, uses_ok d pre ->
+    In e (region_cands (point_region pkgs pre) d) -> In e (flat_map (item_uses pkgs d) pre).
+  Proof.
+    intros pre d e Hu H. unfold region_cands, point_region in H. rewrite point_region_vis in H.
+    rewrite point_vis_all, point_vis_named in H. cbn [region_empty r_vis vis_empty v_all v_named app] in H.
+    apply in_app_or in H. apply in_flat_map. destruct H as [H|H].
+    - apply in_flat_map in H. destruct H as [en [Hen Hin]]. apply in_map_iff in Hen. destruct Hen as [p [Hp Hpin]].
+      subst en. apply use_alls_in in Hpin. exists (IUseAll p). split; [exact Hpin|].
+      pose proof (Hu _ Hpin) as Hok. cbn in Hok. rewrite (pkg_region_get pkgs p d Hok) in Hin. exact Hin.
+    - apply put_all_in in H. destruct H as [H|H]; [|destruct H].
+      apply (name_inserts_spec pre d e Hu) in H. destruct H as [p [n [Hit Hin]]]. exists (IUseName p n). tauto.
+  Qed.
+
+  Lemma spec_to_cands : forall pre d e, uses_ok d pre ->
+    ids_consistent (flat_map (item_uses pkgs d) pre) ->
+    In e (flat_map (item_uses pkgs d) pre) -> In e (region_cands (point_region pkgs pre) d).
+  Proof.
+    intros pre d e Hu Hc H. unfold region_cands, point_region. rewrite point_region_vis.
+    rewrite point_vis_all, point_vis_named. cbn [region_empty r_vis vis_empty v_all v_named app].
+    apply in_flat_map in H. destruct H as [it [Hit Hin]]. apply in_or_app.
+    destruct it; try (destruct Hin).
+    - left. apply in_flat_map. exists (pkg_region pkgs p). split; [apply in_map; apply use_alls_in; exact Hit|].
+      pose proof (Hu _ Hit) as Hok. cbn in Hok. rewrite (pkg_region_get pkgs p d Hok). exact Hin.
+    - right. apply put_all_complete.
+      + cbn [vmap_get]. rewrite app_nil_r. eapply ids_consistent_incl; [|exact Hc].
+        intros x Hx. apply filter_In in Hx. destruct Hx as [Hx Hd]. apply N.eqb_eq in Hd.
+        assert (In x (name_inserts pre) /\ edes x = d) as Hx' by tauto.
+        apply (name_inserts_spec pre d x Hu) in Hx'. destruct Hx' as [p' [n' [H1 H2]]].
+        apply in_flat_map. exists (IUseName p' n'). tauto.
+      + left. apply (name_inserts_spec pre d e Hu). exists p, d0. tauto.
+  Qed.
+End Point3.
+
+(* ---- the refinement theorem ----------------------------------------------------------------- *)
+Inductive res_equiv : lres -> dres -> Prop :=
+| re_single : forall e, res_equiv (LOk (NSingle e)) (DSingle e)
+| re_over : forall m es, Permutation m es -> res_equiv (LOk (NOver m)) (DOver es)
+| re_conflict : res_equiv (LErr EConflict) DConflict
+| re_undeclared : res_equiv (LErr EUndeclared) DUndeclared.
+
+Lemma omap_put_fresh : forall m e, (forall x, In x m -> key_of_is e x = false) -> omap_put e m = m ++ [e].
+Proof.
+  induction m as [|x r IH]; intros e H; [reflexivity|]. cbn [omap_put].
+  rewrite (H x (or_introl eq_refl)). cbn [app]. f_equal. apply IH. intros y Hy. apply H. right. exact Hy.
+Qed.
+
+Lemma over_new_id_gen : forall r acc, forallb overloadable (acc ++ r) = true -> NoDup (map profile (acc ++ r)) ->
+  fold_left (fun m e => omap_put e m) r acc = acc ++ r.
+Proof.
+  induction r as [|e r IH]; intros acc Ho Hnd; [rewrite app_nil_r; reflexivity|]. cbn [fold_left].
+  rewrite omap_put_fresh.
+  - rewrite IH; rewrite <- app_assoc; [reflexivity|exact Ho|exact Hnd].
+  - intros x Hx. assert (Hox : overloadable x = true) by (apply (forallb_In _ _ x Ho); apply in_or_app; left; exact Hx).
+    assert (Hoe : overloadable e = true) by (apply (forallb_In _ _ e Ho); apply in_or_app; right; left; reflexivity).
+    rewrite (key_of_is_profile e x Hoe Hox). destruct (same_profile e x) eqn:E; [|reflexivity]. exfalso.
+    rewrite map_app in Hnd. cbn [map] in Hnd. apply NoDup_remove_2 in Hnd. apply Hnd. apply in_or_app. left.
+    apply in_map_iff. exists x. split; [|exact Hx]. symmetry. apply same_profile_eq. exact E.
+Qed.
+Lemma over_new_id : forall l, forallb overloadable l = true -> NoDup (map profile l) -> over_new l = l.
+Proof. intros l Ho Hnd. unfold over_new. apply (over_new_id_gen l []); assumption. Qed.
+
+Lemma flat_map_map' : forall {A B C} (f : A -> B) (g : B -> list C) l, flat_map g (map f l) = flat_map (fun x => g (f x)) l.
+Proof. intros A B C f g l. induction l as [|x r IH]; [reflexivity|]. cbn [map flat_map]. rewrite IH. reflexivity. Qed.
+
+Lemma NoDup_map_inv' : forall {A B} (f : A -> B) l, NoDup (map f l) -> NoDup l.
+Proof.
+  intros A B f l. induction l as [|x r IH]; intros H; [constructor|]. cbn [map] in H. inversion H as [|? ? Hn Hd]; subst.
+  constructor; [|apply IH; exact Hd]. intros Hin. apply Hn. apply in_map. exact Hin.
+Qed.
+
+Section Refinement.
+  Variable pkgs : N -> list ent.
+
+  Record wf_point (ch : list (list item)) (d : des) : Prop := mkWf {
+    wf_regions : regions_ok ch d;                                   (* no duplicate declarations of d in a region *)
+    wf_uses : Forall (uses_ok pkgs d) ch;                           (* nor in the used packages *)
+    wf_ids : ids_consistent (flat_map (flat_map (item_uses pkgs d)) ch);  (* entity ids identify entities *)
+    wf_profiles : no_equal_profiles pkgs ch d = true                (* the excluded corner *)
+  }.
+
+  Definition model_cands (ch : list (list item)) (d : des) : list ent :=
+    flat_map (fun pre => region_cands (point_region pkgs pre) d) ch.
+  Definition spec_cands (ch : list (list item)) (d : des) : list ent :=
+    flat_map (flat_map (item_uses pkgs d)) ch.
+
+  Lemma cands_equiv : forall ch d, Forall (uses_ok pkgs d) ch -> ids_consistent (spec_cands ch d) ->
+    forall e, In e (model_cands ch d) <-> In e (spec_cands ch d).
+  Proof.
+    intros ch d Hu Hc e. unfold model_cands, spec_cands in *. rewrite !in_flat_map. split.
+    - intros [pre [Hpre Hin]]. exists pre. split; [exact Hpre|]. rewrite Forall_forall in Hu.
+      apply cands_to_spec; auto.
+    - intros [pre [Hpre Hin]]. exists pre. split; [exact Hpre|]. rewrite Forall_forall in Hu.
+      apply spec_to_cands; auto. eapply ids_consistent_incl; [|exact Hc].
+      intros x Hx. apply in_flat_map. exists pre. tauto.
+  Qed.
+
+  Lemma visible_perm : forall ch d, Forall (uses_ok pkgs d) ch -> ids_consistent (spec_cands ch d) ->
+    Permutation (lookup_visibility_into (point_scope pkgs ch) d []) (use_visible pkgs ch d).
+  Proof.
+    intros ch d Hu Hc. rewrite lookup_visibility_cands. unfold point_scope. rewrite flat_map_map'. cbn [f_region].
+    fold (model_cands ch d). unfold use_visible. fold (spec_cands ch d).
+    pose proof (cands_equiv ch d Hu Hc) as Heq.
+    assert (Hcm : ids_consistent (model_cands ch d)).
+    { eapply ids_consistent_incl; [|exact Hc]. intros x Hx. apply Heq. exact Hx. }
+    apply NoDup_Permutation.
+    - eapply NoDup_map_inv'. apply fold_insert_nodup. constructor.
+    - eapply NoDup_map_inv'. apply dedupe_nodup.
+    - intros e. rewrite (fold_insert_in (model_cands ch d) [] e Hcm). cbn [In]. split.
+      + intros [[]|H]. apply dedupe_complete; [exact Hc|apply Heq; exact H|intros []].
+      + intros H. right. apply dedupe_in in H. apply Heq. tauto.
+  Qed.
+
+  Theorem lookup_refines_spec : forall ch d, wf_point ch d ->
+    res_equiv (lookup_uncached (point_scope pkgs ch) d) (denotes pkgs ch d).
+  Proof.
+    intros ch d [Hr Hu Hc Hp].
+    pose proof (visible_perm ch d Hu Hc) as Hperm.
+    pose proof (direct_enclosing pkgs ch d Hr []) as Hdir.
+    pose proof (lookup_enclosing_inv pkgs ch d Hr) as Hinv.
+    unfold lookup_uncached, lookup_visible, denotes.
+    set (Vm := lookup_visibility_into (point_scope pkgs ch) d []) in *.
+    set (Vs := use_visible pkgs ch d) in *.
+    assert (Hov : forallb overloadable Vm = forallb overloadable Vs).
+    { apply eq_true_iff_eq. split; intros H; [eapply perm_forallb; [apply Permutation_sym; exact Hperm|exact H]
+                                              |eapply perm_forallb; [exact Hperm|exact H]]. }
+    assert (Hnd : forallb overloadable Vs = true -> NoDup (map profile Vm)).
+    { intros H. unfold no_equal_profiles in Hp. fold Vs in Hp. rewrite H in Hp. cbn [negb orb] in Hp.
+      apply distinct_profiles_NoDup in Hp. eapply Permutation_NoDup; [|exact Hp].
+      apply Permutation_map. apply Permutation_sym. exact Hperm. }
+    (* into_unambiguous on the model's list, by cases on the specification's list *)
+    assert (Hinto :
+      match Vs with
+      | [] => into_unambiguous Vm = inl None
+      | e :: r =>
+          if forallb overloadable Vs then into_unambiguous Vm = inl (Some (NOver Vm))
+          else match r with
+               | [] => into_unambiguous Vm = inl (Some (NSingle e)) /\ Vm = [e]
+               | _ :: _ => into_unambiguous Vm = inr EConflict
+               end
+      end).
+    { destruct Vs as [|e r] eqn:EVs.
+      - apply Permutation_sym in Hperm. apply Permutation_nil in Hperm. rewrite Hperm. reflexivity.
+      - destruct (forallb overloadable (e :: r)) eqn:Eo.
+        + unfold into_unambiguous. destruct Vm as [|e' r'] eqn:EVm.
+          * apply Permutation_nil in Hperm. discriminate.
+          * change (forallb is_overloaded (e' :: r')) with (forallb overloadable (e' :: r')). rewrite Hov.
+            rewrite over_new_id; [reflexivity|exact Hov|apply Hnd; reflexivity].
+        + destruct r as [|e2 r2].
+          * apply Permutation_sym in Hperm. apply Permutation_length_1_inv in Hperm. rewrite Hperm. split; [|reflexivity].
+            unfold into_unambiguous. change (forallb is_overloaded [e]) with (forallb overloadable [e]).
+            rewrite Eo. unfold named_new. cbn [forallb] in Eo. rewrite andb_true_r in Eo.
+            unfold is_overloaded. unfold overloadable in Eo. rewrite Eo. reflexivity.
+          * pose proof (Permutation_length Hperm) as HL. cbn [length] in HL.
+            destruct Vm as [|a1 [|a2 r3]] eqn:EVm; cbn [length] in HL; try lia.
+            unfold into_unambiguous. change (forallb is_overloaded (a1 :: a2 :: r3)) with (forallb overloadable (a1 :: a2 :: r3)).
+            rewrite Hov. reflexivity. }
+    rewrite Hdir. destruct Hinv as [|e He|enc Hne Hoe Hnde].
+    - (* nothing declared directly *)
+      destruct Vs as [|e r] eqn:EVs.
+      + rewrite Hinto. constructor.
+      + destruct (forallb overloadable (e :: r)) eqn:Eo.
+        * rewrite Hinto. constructor. exact Hperm.
+        * destruct r as [|e2 r2].
+          -- destruct Hinto as [Hi _]. rewrite Hi. constructor.
+          -- rewrite Hinto. constructor.
+    - constructor.
+    - (* overloadable declarations directly visible *)
+      rewrite oplus_nil_l. destruct enc as [|a0 acc]; [contradiction|].
+      destruct Vs as [|e r] eqn:EVs.
+      + rewrite Hinto. cbn [forallb filter]. rewrite app_nil_r. constructor. apply Permutation_refl.
+      + destruct (forallb overloadable (e :: r)) eqn:Eo.
+        * rewrite Hinto. rewrite (with_visible_oplus Vm (a0 :: acc) Hoe); [|exact Hov|apply Hnd; reflexivity].
+          constructor. unfold oplus. apply Permutation_app_head. apply perm_filter. exact Hperm.
+        * destruct r as [|e2 r2].
+          -- destruct Hinto as [Hi _]. rewrite Hi. constructor. apply Permutation_refl.
+          -- rewrite Hinto. constructor. apply Permutation_refl.
+  Qed.
+End Refinement.
+
+(* ---- end to end at a program point: the model's answer agrees with the reference resolver ---- *)
+Section EndToEnd.
+  Variable pkgs : N -> list ent.
+
+  Lemma denotes_wf : forall ch d, wf_point pkgs ch d ->
+    match denotes pkgs ch d with
+    | DSingle e => overloadable e = false
+    | DOver es => forallb overloadable es = true /\ NoDup (map profile es)
+    | _ => True
+    end.
+  Proof.
+    intros ch d [Hr Hu Hc Hp]. unfold denotes.
+    rewrite (direct_enclosing pkgs ch d Hr []).
+    pose proof (lookup_enclosing_inv pkgs ch d Hr) as Hinv.
+    set (Vs := use_visible pkgs ch d) in *.
+    assert (Hnd : forallb overloadable Vs = true -> NoDup (map profile Vs)).
+    { intros H. unfold no_equal_profiles in Hp. fold Vs in Hp. rewrite H in Hp. cbn [negb orb] in Hp.
+      apply distinct_profiles_NoDup. exact Hp. }
+    destruct Hinv as [|e He|enc Hne Hoe Hnde].
+    - destruct Vs as [|e r] eqn:E; [exact I|]. destruct (forallb overloadable (e :: r)) eqn:Eo.
+      + split; [exact Eo|apply Hnd; reflexivity].
+      + destruct r; [|exact I]. cbn [forallb] in Eo. rewrite andb_true_r in Eo. exact Eo.
+    - exact He.
+    - rewrite oplus_nil_l. destruct enc as [|a0 acc]; [contradiction|].
+      destruct (forallb overloadable Vs) eqn:Eo.
+      + split.
+        * apply (oplus_overloadable (a0 :: acc) Vs Hoe Eo).
+        * apply (oplus_NoDup (a0 :: acc) Vs Hnde). apply Hnd. reflexivity.
+      + split; assumption.
+  Qed.
+
+  (* sites outside the claim: an operator symbol that denotes a non-overloadable declaration
+     (impossible in VHDL) and a type conversion `t(x)` written like a call *)
+  Definition site_in_fragment (d : des) (u : usage) (r : dres) : Prop :=
+    match r with
+    | DSingle e => is_operator d = false /\
+                   match u, ekind e with UCall _ _, KType _ _ => False | _, _ => True end
+    | _ => True
+    end.
+
+  Theorem resolution_refines_spec : forall ch d u,
+    wf_point pkgs ch d -> site_in_fragment d u (denotes pkgs ch d) ->
+    agrees (site_result d u (looked_of (lookup_uncached (point_scope pkgs ch) d)))
+           (resolve (denotes pkgs ch d) u).
+  Proof.
+    intros ch d u Hwf Hs. pose proof (lookup_refines_spec pkgs ch d Hwf) as Hre.
+    pose proof (denotes_wf ch d Hwf) as Hd.
+    apply site_result_refines_resolve.
+    - destruct Hre; cbn [looked_of]; constructor; assumption.
+    - destruct (denotes pkgs ch d); cbn [in_fragment site_in_fragment] in *; tauto.
+  Qed.
+End EndToEnd.
+
+(* ------------------------------------------------------------------------------------------ *)
+(* Part 4: witnesses (refutations of the pre-fix / mutated behaviours, examples)               *)
+(* ------------------------------------------------------------------------------------------ *)
+Definition e_f_int : ent := mkEnt 1 0 (KFunc t_integer t_integer) None.
+Definition e_f_bool : ent := mkEnt 2 0 (KFunc t_boolean t_integer) None.
+
+(* WITHOUT the invalidation in ScopeInner::add the cache goes stale on a trace that follows the
+   discipline: declare f(integer), look f up, declare f(boolean), look f up again *)
+Lemma no_add_invalidation_refuted :
+  exists t d s rs r s',
+    disciplined [] (t ++ [OLookup d]) /\ run cfg_no_add_invalidation [] t = Some (s, rs) /\
+    lookup s d = Some (r, s') /\ r <> lookup_uncached s d.
+Proof.
+  exists [ORoot region_empty; OAdd 0 e_f_int; OLookup 0; OAdd 0 e_f_bool], 0.
+  eexists. eexists. eexists. eexists. split; [|split; [|split]].
+  - apply disciplined_b_sound. vm_compute. reflexivity.
+  - vm_compute. reflexivity.
+  - vm_compute. reflexivity.
+  - vm_compute. discriminate.
+Qed.
+
+(* the same trace with the code of today *)
+Lemma add_invalidation_example :
+  exists s rs, run cfg_now [] [ORoot region_empty; OAdd 0 e_f_int; OLookup 0; OAdd 0 e_f_bool] = Some (s, rs) /\
+               exists s', lookup s 0 = Some (LOk (NOver [e_f_int; e_f_bool]), s').
+Proof. eexists. eexists. split; [vm_compute; reflexivity|]. eexists. vm_compute. reflexivity. Qed.
+
+(* programs of the corpus (corpus/C07.cases) *)
+Definition prog_f21 : program :=
+ [mkUnit 1 UPrimary [] [IDecl (mkEnt 1 110 (KLit (TOth 10)) None); IDecl (mkEnt 2 0 (KLit (TOth 10)) None); IDecl (mkEnt 3 1 (KLit (TOth 10)) None); IDecl (mkEnt 4 10 (KType (TOth 10) [(1, 110); (2, 0); (3, 1)]) None)];
+  mkUnit 2 UPrimary [] [IDecl (mkEnt 5 111 (KLit (TOth 11)) None); IDecl (mkEnt 6 0 (KLit (TOth 11)) None); IDecl (mkEnt 7 2 (KLit (TOth 11)) None); IDecl (mkEnt 8 11 (KType (TOth 11) [(5, 111); (6, 0); (7, 2)]) None)];
+  mkUnit 3 UPrimary [IUseAll 2] [];
+  mkUnit 4 (USecondary 3) [] [ISite (mkSite 1 0 (UVal (TOth 11))); IUseName 1 10; ISite (mkSite 2 0 (UVal (TOth 10))); ISite (mkSite 3 1 (UVal (TOth 10))); ISite (mkSite 4 2 (UVal (TOth 11)))]].
+
+Definition prog_f22 : program :=
+ [mkUnit 1 UPrimary [] [IDecl (mkEnt 1 110 (KLit (TOth 10)) None); IDecl (mkEnt 2 10 (KType (TOth 10) [(1, 110)]) None)];
+  mkUnit 2 UPrimary [] [];
+  mkUnit 3 (USecondary 2) [] [IOpenFun (mkEnt 3 0 (KFunc (TInt 0) (TInt 0)) None) (mkEnt 4 9 (KObj (TInt 0)) None); IClose; ISite (mkSite 1 0 (UCall AUniv (TInt 0))); IOpenFun (mkEnt 5 0 (KFunc (TOth 0) (TInt 0)) None) (mkEnt 6 9 (KObj (TOth 0)) None); ISite (mkSite 2 0 (UCall (ATy (TOth 0)) (TInt 0))); ISite (mkSite 3 0 (UCall AUniv (TInt 0))); IClose; ISite (mkSite 4 0 (UCall (ATy (TOth 0)) (TInt 0)))]].
+
+Definition prog_nest3 : program :=
+ [mkUnit 1 UPrimary [] [IDecl (mkEnt 1 110 (KLit (TOth 10)) None); IDecl (mkEnt 2 10 (KType (TOth 10) [(1, 110)]) None)];
+  mkUnit 2 UPrimary [] [];
+  mkUnit 3 (USecondary 2) [] [IDecl (mkEnt 3 0 (KObj (TInt 0)) None); ISite (mkSite 1 0 (UVal (TInt 0))); IOpen; IOpenFun (mkEnt 4 0 (KFunc (TInt 0) (TInt 0)) None) (mkEnt 5 9 (KObj (TInt 0)) None); IClose; ISite (mkSite 2 0 (UCall AUniv (TInt 0))); ISite (mkSite 3 0 (UVal (TInt 0))); IOpen; IDecl (mkEnt 6 0 (KObj (TOth 0)) None); ISite (mkSite 4 0 (UVal (TOth 0))); ISite (mkSite 5 0 (UCall AUniv (TInt 0))); IClose; IClose]].
+
+Definition prog_homograph : program :=
+ [mkUnit 1 UPrimary [] [IDecl (mkEnt 1 0 (KObj (TInt 0)) None); IDecl (mkEnt 2 1 (KObj (TInt 0)) None)];
+  mkUnit 2 UPrimary [] [IDecl (mkEnt 3 0 (KObj (TInt 0)) None); IDecl (mkEnt 4 1 (KObj (TOth 0)) None)];
+  mkUnit 3 UPrimary [IUseAll 1; IUseAll 2] [];
+  mkUnit 4 (USecondary 3) [] [ISite (mkSite 1 0 (UVal (TInt 0))); ISite (mkSite 2 1 (UVal (TInt 0))); IOpen; IDecl (mkEnt 5 0 (KObj (TInt 0)) None); ISite (mkSite 3 0 (UVal (TInt 0))); ISite (mkSite 4 1 (UVal (TOth 0))); IClose; IOpen; IUseName 1 0; ISite (mkSite 5 0 (UVal (TInt 0))); IClose];
+  mkUnit 5 UPrimary [IUseName 1 1] [];
+  mkUnit 6 (USecondary 5) [IUseName 2 1] [ISite (mkSite 6 1 (UVal (TInt 0))); ISite (mkSite 7 0 (UVal (TInt 0)))]].
+
+Definition prog_twolits : program :=
+ [mkUnit 1 UPrimary [] [IDecl (mkEnt 1 110 (KLit (TOth 10)) None); IDecl (mkEnt 2 0 (KLit (TOth 10)) None); IDecl (mkEnt 3 1 (KLit (TOth 10)) None); IDecl (mkEnt 4 10 (KType (TOth 10) [(1, 110); (2, 0); (3, 1)]) None)];
+  mkUnit 2 UPrimary [] [IDecl (mkEnt 5 111 (KLit (TOth 11)) None); IDecl (mkEnt 6 0 (KLit (TOth 11)) None); IDecl (mkEnt 7 2 (KLit (TOth 11)) None); IDecl (mkEnt 8 11 (KType (TOth 11) [(5, 111); (6, 0); (7, 2)]) None)];
+  mkUnit 3 UPrimary [] [IDecl (mkEnt 9 0 (KFunc (TInt 0) (TOth 11)) None)];
+  mkUnit 4 (USecondary 3) [] [IOpenFun (mkEnt 10 0 (KFunc (TInt 0) (TOth 11)) (Some 9)) (mkEnt 11 9 (KObj (TInt 0)) None); IClose];
+  mkUnit 5 UPrimary [IUseAll 1; IUseAll 2; IUseAll 3] [];
+  mkUnit 6 (USecondary 5) [] [ISite (mkSite 1 0 (UVal (TOth 10))); ISite (mkSite 2 0 (UVal (TOth 11))); ISite (mkSite 3 1 (UVal (TOth 11))); ISite (mkSite 4 2 (UVal (TOth 10))); ISite (mkSite 5 0 (UCall AUniv (TOth 11))); ISite (mkSite 6 0 (UCall AUniv (TOth 10))); ISite (mkSite 7 10 UType); ISite (mkSite 8 11 UType); ISite (mkSite 9 0 UType)]].
+
+Definition prog_charlit : program :=
+ [mkUnit 1 UPrimary [] [IDecl (mkEnt 1 110 (KLit (TOth 10)) None); IDecl (mkEnt 2 30 (KLit (TOth 10)) None); IDecl (mkEnt 3 10 (KType (TOth 10) [(1, 110); (2, 30)]) None)];
+  mkUnit 2 UPrimary [] [];
+  mkUnit 3 (USecondary 2) [] [ISite (mkSite 1 30 (UVal (TOth 10))); IUseAll 1; ISite (mkSite 2 30 (UVal (TOth 10))); ISite (mkSite 3 31 (UVal (TOth 10)))]].
+
+(* what the model observes per site: (sid, reference, class), through the cache / without it *)
+Definition observed (c : cfg) (p : program) : option (list (N * option N * mclass) * list (N * option N * mclass)) :=
+  match model_program c p with
+  | Some m => Some (map (fun o => (o_sid o, mtarget (o_cached o), mclass_of (o_cached o))) (m_sites m),
+                    map (fun o => (o_sid o, mtarget (o_uncached o), mclass_of (o_uncached o))) (m_sites m))
+  | None => None
+  end.
+Definition trace_disciplined (c : cfg) (p : program) : option bool :=
+  match model_program c p with Some m => Some (disciplined_b [] (m_trace m)) | None => None end.
+
+(* F21: `use p1.t0` after the literal v0 of p2.t1 was looked up.  Before 2dc9b83
+   make_potentially_visible dropped the cache entry of `t0` only: site 2 saw the stale candidates. *)
+Lemma stale_implicit_old_refuted :
+  family_program prog_f21 = true /\
+  spec_program prog_f21 = [(1, ADecl 6); (2, ADecl 2); (3, ADecl 3); (4, ADecl 7)] /\
+  observed cfg_old_mpv prog_f21 =
+    Some ([(1, Some 6, MOk); (2, None, MError); (3, Some 3, MOk); (4, Some 7, MOk)],
+          [(1, Some 6, MOk); (2, Some 2, MOk); (3, Some 3, MOk); (4, Some 7, MOk)]) /\
+  observed cfg_now prog_f21 =
+    Some ([(1, Some 6, MOk); (2, Some 2, MOk); (3, Some 3, MOk); (4, Some 7, MOk)],
+          [(1, Some 6, MOk); (2, Some 2, MOk); (3, Some 3, MOk); (4, Some 7, MOk)]) /\
+  trace_disciplined cfg_now prog_f21 = Some true.
+Proof. repeat split; vm_compute; reflexivity. Qed.
+
+(* F22: recursive call of the overloaded function v0 inside the body of v0(boolean), after v0 was
+   looked up in the enclosing region.  Before b25a4b2 the nested scope kept the clone of the stale
+   entry: site 2 resolved against v0(integer) only; the trace leaves the discipline. *)
+Lemma stale_nested_old_refuted :
+  family_program prog_f22 = true /\
+  spec_program prog_f22 = [(1, ADecl 3); (2, ADecl 5); (3, ADecl 3); (4, ADecl 5)] /\
+  observed cfg_old_body prog_f22 =
+    Some ([(1, Some 3, MOk); (2, Some 3, MError); (3, Some 3, MOk); (4, Some 5, MOk)],
+          [(1, Some 3, MOk); (2, Some 5, MOk); (3, Some 3, MOk); (4, Some 5, MOk)]) /\
+  trace_disciplined cfg_old_body prog_f22 = Some false /\
+  observed cfg_now prog_f22 =
+    Some ([(1, Some 3, MOk); (2, Some 5, MOk); (3, Some 3, MOk); (4, Some 5, MOk)],
+          [(1, Some 3, MOk); (2, Some 5, MOk); (3, Some 3, MOk); (4, Some 5, MOk)]) /\
+  trace_disciplined cfg_now prog_f22 = Some true.
+Proof. repeat split; vm_compute; reflexivity. Qed.
+
+(* F23 (open): a character literal in an expression is not looked up.  Site 1: 'a' of p1.t0 is not
+   visible (no use clause yet): the reference resolver says UNDECLARED-or-ERROR, the analyser accepts;
+   site 2: visible, the resolver names declaration 2, the analyser sets no reference. *)
+Lemma char_literal_refuted :
+  family_program prog_charlit = true /\
+  spec_program prog_charlit = [(1, AError); (2, ADecl 2); (3, AError)] /\
+  observed cfg_now prog_charlit =
+    Some ([(1, None, MOk); (2, None, MOk); (3, None, MError)],
+          [(1, None, MOk); (2, None, MOk); (3, None, MError)]).
+Proof. repeat split; vm_compute; reflexivity. Qed.
+
+(* dropping the return-type stage of `disambiguate` loses a unique fit *)
+Lemma stage_dropped_refuted :
+  let es := [mkEnt 1 0 (KFunc t_integer t_integer) None; mkEnt 2 0 (KFunc t_integer t_boolean) None] in
+  filter (cand_fits (UCall AUniv t_integer)) es = [mkEnt 1 0 (KFunc t_integer t_integer) None] /\
+  disambiguate es AUniv (Some t_integer) = Unambiguous (mkEnt 1 0 (KFunc t_integer t_integer) None) /\
+  disambiguate_no_return_stage es AUniv (Some t_integer) = Ambiguous es.
+Proof. repeat split; vm_compute; reflexivity. Qed.
+
+(* Examples: 3-deep nesting; a homograph pair; overloaded literals over two enumeration types *)
+Lemma example_nest3 :
+  family_program prog_nest3 = true /\
+  spec_program prog_nest3 = [(1, ADecl 3); (2, ADecl 4); (3, AError); (4, ADecl 6); (5, AError)] /\
+  observed cfg_now prog_nest3 =
+    Some ([(1, Some 3, MOk); (2, Some 4, MOk); (3, None, MError); (4, Some 6, MOk); (5, Some 6, MError)],
+          [(1, Some 3, MOk); (2, Some 4, MOk); (3, None, MError); (4, Some 6, MOk); (5, Some 6, MError)]).
+Proof. repeat split; vm_compute; reflexivity. Qed.
+
+Lemma example_homograph :
+  family_program prog_homograph = true /\
+  spec_program prog_homograph =
+    [(1, AConflict); (2, AConflict); (3, ADecl 5); (4, AConflict); (5, AConflict); (6, AConflict); (7, AUndeclared)] /\
+  observed cfg_now prog_homograph =
+    Some ([(1, None, MConflict); (2, None, MConflict); (3, Some 5, MOk); (4, None, MConflict);
+           (5, None, MConflict); (6, None, MConflict); (7, None, MUndeclared)],
+          [(1, None, MConflict); (2, None, MConflict); (3, Some 5, MOk); (4, None, MConflict);
+           (5, None, MConflict); (6, None, MConflict); (7, None, MUndeclared)]).
+Proof. repeat split; vm_compute; reflexivity. Qed.
+
+Lemma example_twolits :
+  family_program prog_twolits = true /\
+  spec_program prog_twolits =
+    [(1, ADecl 2); (2, ADecl 6); (3, AError); (4, AError); (5, ADecl 9); (6, AError); (7, ADecl 4); (8, ADecl 8); (9, AError)] /\
+  observed cfg_now prog_twolits =
+    Some ([(1, Some 2, MOk); (2, Some 6, MOk); (3, None, MError); (4, None, MError); (5, Some 9, MOk);
+           (6, Some 9, MError); (7, Some 4, MOk); (8, Some 8, MOk); (9, None, MError)],
+          [(1, Some 2, MOk); (2, Some 6, MOk); (3, None, MError); (4, None, MError); (5, Some 9, MOk);
+           (6, Some 9, MError); (7, Some 4, MOk); (8, Some 8, MOk); (9, None, MError)]).
+Proof. repeat split; vm_compute; reflexivity. Qed.
+
+(* non-vacuity of the hypotheses of the refinement theorem: a point inside a process (3 regions deep
+   below the context clause) that sees v0 as: a function declared in the process, a function of the
+   architecture, a function and a literal of package 1 (use p1.all), a literal of package 2 brought
+   along by `use p2.t1` *)
+Definition ex_pkgs (p : N) : list ent :=
+  if p =? 0 then decls_of std_decls
+  else if p =? 1 then [mkEnt 11 110 (KLit (TOth 10)) None; mkEnt 12 0 (KLit (TOth 10)) None;
+                       mkEnt 13 10 (KType (TOth 10) [(11, 110); (12, 0)]) None;
+                       mkEnt 14 0 (KFunc t_integer t_boolean) None]
+  else if p =? 2 then [mkEnt 21 111 (KLit (TOth 11)) None; mkEnt 22 0 (KLit (TOth 11)) None;
+                       mkEnt 23 11 (KType (TOth 11) [(21, 111); (22, 0)]) None]
+  else [].
+Definition ex_chain : list (list item) :=
+  [ [IDecl (mkEnt 31 0 (KFunc t_boolean t_integer) None)];                           (* process *)
+    [IDecl (mkEnt 32 1 (KObj t_integer) None); IUseName 2 11];                        (* block *)
+    [IDecl (mkEnt 33 0 (KFunc t_integer t_integer) None); IUseAll 1];                 (* architecture *)
+    [IUseAll 0] ].                                                                    (* context clause *)
+
+Lemma ex_wf_point : wf_point ex_pkgs ex_chain 0.
+Proof.
+  constructor.
+  - repeat constructor.
+  - repeat constructor; intros it Hin; cbn [In] in Hin;
+      repeat (destruct Hin as [<-|Hin]; [try exact I; vm_compute; reflexivity|]); destruct Hin.
+  - intros x y Hx Hy Hid. vm_compute in Hx, Hy.
+    repeat (destruct Hx as [<-|Hx]); try contradiction;
+      repeat (destruct Hy as [<-|Hy]); try contradiction; try reflexivity; vm_compute in Hid; discriminate.
+  - vm_compute. reflexivity.
+Qed.
+
+Lemma ex_point_values :
+  denotes ex_pkgs ex_chain 0 =
+    DOver [mkEnt 31 0 (KFunc t_boolean t_integer) None; mkEnt 33 0 (KFunc t_integer t_integer) None;
+           mkEnt 22 0 (KLit (TOth 11)) None; mkEnt 12 0 (KLit (TOth 10)) None;
+           mkEnt 14 0 (KFunc t_integer t_boolean) None] /\
+  lookup_uncached (point_scope ex_pkgs ex_chain) 0 =
+    LOk (NOver [mkEnt 31 0 (KFunc t_boolean t_integer) None; mkEnt 33 0 (KFunc t_integer t_integer) None;
+                mkEnt 22 0 (KLit (TOth 11)) None; mkEnt 12 0 (KLit (TOth 10)) None;
+                mkEnt 14 0 (KFunc t_integer t_boolean) None]).
+Proof. split; vm_compute; reflexivity. Qed.
+
+Lemma disambiguate_unique :
+  forall es a t,
+    forallb overloadable es = true -> NoDup (map profile es) ->
+    match filter (cand_fits (UCall a t)) es with
+    | [e] => disambiguate es a (Some t) = Unambiguous e
+    | [] => forall e, disambiguate es a (Some t) = Unambiguous e -> In e es /\ cand_fits (UCall a t) e = false
+    | x :: y :: r => disambiguate es a (Some t) = Ambiguous (x :: y :: r)
+    end.
+Proof.
+  intros es a t Ho Hnd. destruct (filter (cand_fits (UCall a t)) es) as [|x [|y r]] eqn:E.
+  - intros e He. pose proof (disambiguate_in es a t e He) as Hin. split; [exact Hin|].
+    destruct (cand_fits (UCall a t) e) eqn:Ef; [|reflexivity].
+    assert (In e (filter (cand_fits (UCall a t)) es)) by (apply filter_In; tauto). rewrite E in H. destruct H.
+  - exact (disambiguate_unique_fit es a t x Ho E).
+  - exact (disambiguate_several_fit es a t x y r Ho Hnd E).
+Qed.
+
+(* ------------------------------------------------------------------------------------------ *)
+(* Part 5: the traces of the elaborator follow the discipline                                  *)
+(* ------------------------------------------------------------------------------------------ *)
+Fixpoint dsteps (st : list dframe) (t : list op) : option (list dframe) :=
+  match t with
+  | [] => Some st
+  | o :: r => match dstep st o with Some st' => dsteps st' r | None => None end
+  end.
+Lemma dsteps_disciplined : forall t st st', dsteps st t = Some st' -> disciplined st t.
+Proof.
+  induction t as [|o t IH]; intros st st' H; [constructor|]. cbn [dsteps] in H.
+  destruct (dstep st o) as [st1|] eqn:E; [|discriminate]. econstructor; eauto.
+Qed.
+Lemma dsteps_app : forall t1 t2 st,
+  dsteps st (t1 ++ t2) = match dsteps st t1 with Some st1 => dsteps st1 t2 | None => None end.
+Proof.
+  induction t1 as [|o t IH]; intros t2 st; [reflexivity|]. cbn [app dsteps].
+  destruct (dstep st o); [apply IH|reflexivity].
+Qed.
+
+Definition stale_free (dst : list dframe) : Prop := Forall (fun df => d_stale df = []) dst.
+Definition dshape (dst : list dframe) (s : scope) : Prop := length dst = length s /\ stale_free dst.
+
+Lemma del_nil : forall d, del d [] = [].
+Proof. reflexivity. Qed.
+
+Lemma update_nth_length : forall k g s s', update_nth k g s = Some s' -> length s' = length s.
+Proof.
+  induction k as [|k IH]; intros g [|f r] s' H; cbn [update_nth] in H; try discriminate.
+  - inversion H; reflexivity.
+  - destruct (update_nth k g r) as [r'|] eqn:E; [|discriminate]. inversion H; subst. cbn [length]. f_equal. eapply IH; eauto.
+Qed.
+
+(* every operation except an `add` to an ancestor keeps the abstract state free of stale marks *)
+Definition not_add_up (o : op) : Prop := match o with OAdd (S _) _ => False | _ => True end.
+
+Lemma dstep_shape : forall c dst s o s' r,
+  dshape dst s -> not_add_up o -> exec c s o = Some (s', r) ->
+  exists dst', dstep dst o = Some dst' /\ dshape dst' s'.
+Proof.
+  intros c dst s o s' r [HL HS] Hn He. destruct o; cbn [exec] in He; cbn [dstep].
+  - inversion He; subst. eexists. split; [reflexivity|]. split; [reflexivity|]. repeat constructor.
+  - destruct s as [|f s0]; [discriminate|]. destruct dst as [|df dst0]; [discriminate|]. inversion He; subst.
+    eexists. split; [reflexivity|]. split; [cbn [length] in *; lia|]. constructor; [reflexivity|exact HS].
+  - destruct s as [|f s0]; [discriminate|]. destruct dst as [|df dst0]; [discriminate|]. inversion He; subst.
+    eexists. split; [reflexivity|]. split; [cbn [length] in *; lia|]. inversion HS; subst. constructor; assumption.
+  - destruct s as [|f [|f1 s0]]; try discriminate. destruct dst as [|df [|df1 dst0]]; try discriminate. inversion He; subst.
+    eexists. split; [reflexivity|]. split; [cbn [length] in *; lia|]. inversion HS; subst. assumption.
+  - destruct k as [|k]; [|contradiction]. destruct s as [|f s0]; [discriminate|]. destruct dst as [|df dst0]; [discriminate|].
+    cbn [update_nth] in He. inversion He; subst. cbn [d_add]. eexists. split; [reflexivity|].
+    split; [cbn [length] in *; lia|]. inversion HS as [|? ? H1 H2]; subst. constructor; [|exact H2].
+    cbn [d_forget d_stale]. rewrite H1. reflexivity.
+  - destruct s as [|f s0]; [discriminate|]. destruct dst as [|df dst0]; [discriminate|]. inversion He; subst.
+    eexists. split; [reflexivity|]. split; [cbn [length] in *; lia|]. inversion HS; subst. constructor; [reflexivity|assumption].
+  - destruct s as [|f s0]; [discriminate|]. destruct dst as [|df dst0]; [discriminate|]. inversion He; subst.
+    eexists. split; [reflexivity|]. split; [cbn [length] in *; lia|]. inversion HS; subst. constructor; [reflexivity|assumption].
+  - destruct s as [|f s0]; [discriminate|]. destruct dst as [|df dst0]; [discriminate|]. inversion He; subst.
+    eexists. split; [reflexivity|]. split; [cbn [length] in *; lia|]. inversion HS as [|? ? H1 H2]; subst.
+    constructor; [|exact H2]. cbn [d_forget d_stale]. rewrite H1. reflexivity.
+  - destruct s as [|f s0]; [cbn in He; discriminate|]. destruct dst as [|df dst0]; [discriminate|].
+    inversion HS as [|? ? H1 H2]; subst. rewrite H1. cbn [mem existsb].
+    destruct (lookup (f :: s0) d) as [[res s1]|] eqn:El; [|discriminate]. inversion He; subst.
+    eexists. split; [reflexivity|]. split.
+    + unfold lookup in El. destruct (cache_get (f_cache f) d).
+      * inversion El; subst. exact HL.
+      * destruct (lookup_uncached (f :: s0) d); inversion El; subst; exact HL.
+    + constructor; [reflexivity|exact H2].
+Qed.
+
+Lemma dsteps_shape : forall c ops dst s s' rs,
+  dshape dst s -> Forall not_add_up ops -> run c s ops = Some (s', rs) ->
+  exists dst', dsteps dst ops = Some dst' /\ dshape dst' s'.
+Proof.
+  induction ops as [|o ops IH]; intros dst s s' rs Hs Hn Hr.
+  - cbn [run] in Hr. inversion Hr; subst. exists dst. split; [reflexivity|exact Hs].
+  - cbn [run] in Hr. destruct (exec c s o) as [[s1 res]|] eqn:He; [|discriminate].
+    destruct (run c s1 ops) as [[s2 out]|] eqn:Hr2; [|discriminate]. inversion Hr; subst.
+    inversion Hn as [|? ? Hn1 Hn2]; subst.
+    destruct (dstep_shape c dst s o s1 res Hs Hn1 He) as [dst1 [Hd1 Hs1]].
+    destruct (IH dst1 s1 s' out Hs1 Hn2 Hr2) as [dst' [Hd' Hs']].
+    exists dst'. split; [|exact Hs']. cbn [dsteps]. rewrite Hd1. exact Hd'.
+Qed.
+
+(* a subprogram body: the parent's add taints the clone, invalidate_cached removes the mark *)
+Lemma dsteps_fun_body : forall c f p dst s s' rs,
+  body_uncaches c = true -> dshape dst s ->
+  run c s ([ONested; OAdd 0 p; OAdd 1 f] ++ (if body_uncaches c then [OUncache (edes f)] else [])) = Some (s', rs) ->
+  exists dst', dsteps dst ([ONested; OAdd 0 p; OAdd 1 f] ++ (if body_uncaches c then [OUncache (edes f)] else [])) = Some dst'
+               /\ dshape dst' s'.
+Proof.
+  intros c f p dst s s' rs Hb [HL HS] Hr. rewrite Hb in *. cbn [app] in *.
+  destruct s as [|f0 s0]; [cbn in Hr; discriminate|]. destruct dst as [|df dst0]; [discriminate|].
+  inversion HS as [|? ? H1 H2]; subst.
+  cbn [run exec update_nth] in Hr. inversion Hr; subst; clear Hr.
+  cbn [dsteps dstep d_add]. eexists. split; [reflexivity|]. split.
+  - cbn [length] in *. lia.
+  - constructor; [|constructor; [|exact H2]].
+    + unfold d_taint, d_forget. cbn [d_cached d_stale]. rewrite H1.
+      destruct (mem (edes f) (del (edes p) (d_cached df))); cbn [d_stale del filter].
+      * rewrite N.eqb_refl. reflexivity.
+      * reflexivity.
+    + unfold d_forget. cbn [d_stale]. rewrite H1. reflexivity.
+Qed.
+
+Definition einv (st : estate) : Prop :=
+  exists dst, dsteps [] (rev (e_trace st)) = Some dst /\ dshape dst (e_scope st).
+
+Lemma do_ops_inv : forall c st ops st',
+  Forall not_add_up ops -> einv st -> do_ops c st ops = Some st' -> einv st'.
+Proof.
+  intros c st ops st' Hn [dst [Hd Hs]] H. unfold do_ops in H.
+  destruct (run c (e_scope st) ops) as [[s' rs]|] eqn:Hr; [|discriminate]. inversion H; subst; clear H.
+  destruct (dsteps_shape c ops dst (e_scope st) s' rs Hs Hn Hr) as [dst' [Hd' Hs']].
+  exists dst'. cbn [e_trace e_scope]. split; [|exact Hs'].
+  rewrite rev_app_distr, rev_involutive, dsteps_app, Hd. exact Hd'.
+Qed.
+
+Lemma use_ops_not_add : forall t it, Forall not_add_up (use_ops t it).
+Proof.
+  intros t it. destruct it; cbn [use_ops]; try constructor.
+  - destruct (mtab_find t p) as [[v r]|]; repeat constructor.
+  - destruct (mtab_find t p) as [[v r]|]; [|constructor].
+    destruct (ents_get (r_ents r) d) as [[e|os]|]; [repeat constructor| |constructor].
+    induction os; cbn [map]; constructor; [exact I|assumption].
+Qed.
+
+Lemma elab_item_inv : forall c lt st it st',
+  body_uncaches c = true -> einv st -> elab_item c lt st it = Some st' -> einv st'.
+Proof.
+  intros c lt st it st' Hb Hi H. destruct it; cbn [elab_item] in H.
+  - eapply do_ops_inv; [|exact Hi|exact H]. repeat constructor.
+  - eapply do_ops_inv; [|exact Hi|exact H]. apply use_ops_not_add.
+  - eapply do_ops_inv; [|exact Hi|exact H]. apply use_ops_not_add.
+  - (* site *)
+    unfold elab_site in H.
+    destruct (match suse s with UVal t => if is_character (sdes s) then Some t else None | _ => None end).
+    + inversion H; subst. exact Hi.
+    + destruct (lookup (e_scope st) (sdes s)) as [[res s1]|] eqn:El; [|discriminate]. inversion H; subst; clear H.
+      destruct Hi as [dst [Hd Hs]]. 
+      assert (He : exec c (e_scope st) (OLookup (sdes s)) = Some (s1, Some res)) by (cbn [exec]; rewrite El; reflexivity).
+      destruct (dstep_shape c dst (e_scope st) (OLookup (sdes s)) s1 (Some res) Hs I He) as [dst' [Hd' Hs']].
+      exists dst'. cbn [e_trace e_scope]. split; [|exact Hs'].
+      cbn [rev]. rewrite dsteps_app, Hd. cbn [dsteps]. rewrite Hd'. reflexivity.
+  - eapply do_ops_inv; [|exact Hi|exact H]. repeat constructor.
+  - (* function body *)
+    destruct Hi as [dst [Hd Hs]]. unfold do_ops in H.
+    destruct (run c (e_scope st) _) as [[s' rs]|] eqn:Hr; [|discriminate]. inversion H; subst; clear H.
+    destruct (dsteps_fun_body c f param dst (e_scope st) s' rs Hb Hs Hr) as [dst' [Hd' Hs']].
+    exists dst'. cbn [e_trace e_scope]. split; [|exact Hs'].
+    set (ops := [ONested; OAdd 0 param; OAdd 1 f] ++ (if body_uncaches c then [OUncache (edes f)] else [])) in *.
+    change (dsteps [] (rev (rev ops ++ e_trace st)) = Some dst').
+    rewrite rev_app_distr, rev_involutive, dsteps_app, Hd. exact Hd'.
+  - eapply do_ops_inv; [|exact Hi|exact H]. repeat constructor.
+Qed.
+
+Lemma elab_items_inv : forall c lt its st st',
+  body_uncaches c = true -> einv st -> elab_items c lt st its = Some st' -> einv st'.
+Proof.
+  induction its as [|it r IH]; intros st st' Hb Hi H; cbn [elab_items] in H.
+  - inversion H; subst. exact Hi.
+  - destruct (elab_item c lt st it) as [st1|] eqn:E; [|discriminate].
+    eapply IH; [exact Hb| |exact H]. eapply elab_item_inv; eauto.
+Qed.
+
+Lemma flat_use_ops_not_add : forall t its, Forall not_add_up (flat_map (use_ops t) its).
+Proof.
+  intros t its. induction its as [|it r IH]; cbn [flat_map]; [constructor|].
+  apply Forall_app. split; [apply use_ops_not_add|exact IH].
+Qed.
+
+Lemma elab_unit_inv : forall c lt st u st',
+  body_uncaches c = true -> einv st -> elab_unit c lt st u = Some st' -> einv st'.
+Proof.
+  intros c lt st u st' Hb Hi H. unfold elab_unit in H.
+  set (start := match ukd u with
+                | UPrimary => do_ops c st (ORoot region_empty :: flat_map (use_ops (e_tab st)) std_context)
+                | USecondary q => match mtab_find (e_tab st) q with
+                                  | Some (v, _) => do_ops c st [ORoot (mkRegion [] v)]
+                                  | None => do_ops c st (ORoot region_empty :: flat_map (use_ops (e_tab st)) std_context)
+                                  end
+                end) in H.
+  destruct start as [st0|] eqn:E0; [|discriminate].
+  assert (I0 : einv st0).
+  { unfold start in E0. destruct (ukd u) as [|q].
+    - eapply do_ops_inv; [|exact Hi|exact E0]. constructor; [exact I|apply flat_use_ops_not_add].
+    - destruct (mtab_find (e_tab st) q) as [[v r]|].
+      + eapply do_ops_inv; [|exact Hi|exact E0]. repeat constructor.
+      + eapply do_ops_inv; [|exact Hi|exact E0]. constructor; [exact I|apply flat_use_ops_not_add]. }
+  destruct (elab_items c lt st0 (uctx u)) as [st1|] eqn:E1; [|discriminate].
+  assert (I1 : einv st1) by (eapply elab_items_inv; eauto).
+  set (opened := match ukd u with
+                 | UPrimary => do_ops c st1 [ONested]
+                 | USecondary q => match mtab_find (e_tab st1) q with
+                                   | Some (_, r) => do_ops c st1 [OExtend r]
+                                   | None => do_ops c st1 [ONested]
+                                   end
+                 end) in H.
+  destruct opened as [st2|] eqn:E2; [|discriminate].
+  assert (I2 : einv st2).
+  { unfold opened in E2. destruct (ukd u) as [|q].
+    - eapply do_ops_inv; [|exact I1|exact E2]. repeat constructor.
+    - destruct (mtab_find (e_tab st1) q) as [[v r]|]; (eapply do_ops_inv; [|exact I1|exact E2]); repeat constructor. }
+  destruct (elab_items c lt st2 (ubody u)) as [st3|] eqn:E3; [|discriminate].
+  assert (I3 : einv st3) by (eapply elab_items_inv; eauto).
+  inversion H; subst. exact I3.
+Qed.
+
+Lemma elab_units_inv : forall c lt us st st',
+  body_uncaches c = true -> einv st -> elab_units c lt st us = Some st' -> einv st'.
+Proof.
+  induction us as [|u r IH]; intros st st' Hb Hi H; cbn [elab_units] in H.
+  - inversion H; subst. exact Hi.
+  - destruct (elab_unit c lt st u) as [st1|] eqn:E; [|discriminate].
+    eapply IH; [exact Hb| |exact H]. eapply elab_unit_inv; eauto.
+Qed.
+
+(* whatever program the elaborator of today's code processes, its trace follows the discipline *)
+Theorem elaborator_disciplined : forall p m, model_program cfg_now p = Some m -> disciplined [] (m_trace m).
+Proof.
+  intros p m H. unfold model_program in H.
+  destruct (elab_units cfg_now (program_lits p) (mkE std_mtable [] [] []) p) as [st|] eqn:E; [|discriminate].
+  inversion H; subst; clear H. cbn [m_trace].
+  assert (I0 : einv (mkE std_mtable [] [] [])).
+  { exists []. split; [reflexivity|]. split; [reflexivity|constructor]. }
+  destruct (elab_units_inv cfg_now _ p _ st eq_refl I0 E) as [dst [Hd _]].
+  eapply dsteps_disciplined. exact Hd.
+Qed.
+
+Lemma disciplined_prefix : forall t1 t2 st, disciplined st (t1 ++ t2) -> disciplined st t1.
+Proof.
+  induction t1 as [|o t IH]; intros t2 st H; [constructor|]. cbn [app] in H.
+  inversion H as [|? ? st1 ? Hs Hd]; subst. econstructor; eauto.
+Qed.
+
+(* every lookup the elaborator performs returns what lookup_uncached returns at that moment *)
+Corollary elaborator_cache_coherent : forall p m t d rest s rs,
+  model_program cfg_now p = Some m -> m_trace m = t ++ OLookup d :: rest ->
+  run cfg_now [] t = Some (s, rs) -> exists s', lookup s d = Some (lookup_uncached s d, s').
+Proof.
+  intros p m t d rest s rs Hm Ht Hr. pose proof (elaborator_disciplined p m Hm) as Hd. rewrite Ht in Hd.
+  replace (t ++ OLookup d :: rest) with ((t ++ [OLookup d]) ++ rest) in Hd by (rewrite <- app_assoc; reflexivity).
+  apply disciplined_prefix in Hd. eapply cache_coherent; eauto.
+Qed.
